@@ -10,7 +10,8 @@ export GOFLAGS=-mod=mod GOPROXY=off
 mkdir -p /verif/bin
 rc=0
 for id in $(python3 -c "import json;print(' '.join(c['property_id'].lower() for c in json.load(open('/verif/MANIFEST.json'))['checks']))"); do
-  go build -tags verif -o "/verif/bin/$id" "./drivers/$id" || { echo "build failed: $id"; rc=1; }
+  extra=""; [ -f "drivers/$id/build.flags" ] && extra=$(cat "drivers/$id/build.flags")
+  ( [ -f "drivers/$id/build.env" ] && export $(grep -v '^#' "drivers/$id/build.env" | xargs); go build $extra -tags verif -o "/verif/bin/$id" "./drivers/$id" ) || { echo "build failed: $id"; rc=1; }
 done
 [ $rc = 0 ] && echo setup ok || echo "setup finished with build failures (the affected checks will report exit 2)"
 exit 0
